@@ -7,6 +7,13 @@
   chython/algorithms/fingerprints/morgan.py   MorganFingerprint._morgan_hash_dict -> g_morgan_hash_dict
                                               MorganFingerprint.morgan_hash_set   -> g_morgan_hash_set
                                               MorganFingerprint.morgan_bit_set    -> g_morgan_bit_set
+                                              MorganFingerprint.morgan_fingerprint -> g_morgan_fingerprint
+  (linear.py)                                 LinearFingerprint.linear_fingerprint -> g_linear_fingerprint
+  chython/algorithms/fingerprints/__init__.py Fingerprints._atom_identifiers      -> g_atom_identifiers
+                                              FingerprintsCGR._atom_identifiers   -> g_cgr_atom_identifiers
+  chython/containers/bonds.py                 DynamicBond.__hash__                -> g_dynbond_int   (DynamicBond.__int__ is checked to be
+                                              `return hash(self)`, Bond.__int__ to be `return self.order`: the rule int(b) = b_ord b)
+  chython/containers/graph.py                 Graph.atoms is checked to be `return iter(self._atoms.items())`
 
 Every function body is translated from the Python `ast` of /repo's source on every run into a Gallina definition (docstrings are
 skipped, nothing else).  proofs/FingerprintBodiesProofs.v proves each generated definition equal to the hand-written model of
@@ -24,7 +31,10 @@ FAIL CLOSED: every statement / expression form outside the fragment below raises
 Python sets and deques are lists (a set = the sequence of its additions, compared as a set by the theorems), dicts are association lists in
 insertion order; `hash` is the parameter h; math.log2 raises ValueError (math domain error) for an argument <= 0 and int(log2(n)) is
 Z.log2 n (exact below 2^49 - 1); `assert` raises AssertionError = Err OtherError; `sorted` of (int, int) tuples is Model.Fingerprint.sort_pairs;
-`l[-(n):]` is skipn (length l - n) l (n >= 1; Python's l[-0:] is the whole list: the translated occurrence is guarded by the asserts)."""
+`l[-(n):]` is skipn (length l - n) l (n >= 1; Python's l[-0:] is the whole list: the translated occurrence is guarded by the asserts).
+In the identifier functions `hash` of a tuple of ints / bools is Model.PyHash.tuple_hash_lanes over hash_int / hash_bool (the bit-exact model of
+CPython's tuple hash), `x or 0` on an Optional[int] attribute is `match x with Some v => v | None => 0 end`.  numpy: `zeros(n, dtype=uint8)` is
+np_zeros n (n entries 0), `v[list(bits)] = 1` is np_put_ones v bits (IndexError for an index outside [-len, len), negative indices wrap around)."""
 import ast
 import os
 import sys
@@ -33,15 +43,19 @@ sys.path.insert(0, os.path.dirname(__file__))
 from coqfmt import *  # noqa
 
 RESERVED = {'rev', 'length', 'map', 'filter', 'hd', 'tl', 'last', 'keys', 'min', 'max', 'log', 'fst', 'snd', 'combine', 'skipn', 'ident',
-            'h', 'g', 'fuel', 'e', 'nat', 'list', 'option', 'mask'}
+            'h', 'g', 'fuel', 'e', 'nat', 'list', 'option', 'mask', 'atom', 'bond', 'mol', 'c', 'b', 'v', 'n', 'ix'}
 
 # element types of iterables
 ELT = {'path': 'Z', 'paths': 'path', 'pairs': 'pair', 'pair': 'Z', 'zdict_items': ('Z', 'Z'), 'frs_items': ('path', 'paths'),
-       'nbr_items': ('Z', 'bond'), 'zip_zz': ('Z', 'Z'), 'dicts': 'zdict', 'zdict_values': 'Z'}
+       'nbr_items': ('Z', 'bond'), 'zip_zz': ('Z', 'Z'), 'dicts': 'zdict', 'zdict_values': 'Z',
+       'atom_items': ('Z', 'atom'), 'catom_items': ('Z', 'catom'), 'enum_dicts': ('Z', 'zdict'), 'sdict_items': ('Z', 'strs'), 'strs': 'str'}
 # list-of-X type names
-LISTOF = {'Z': 'path', 'path': 'paths', 'pair': 'pairs', 'zdict': 'dicts'}
+LISTOF = {'Z': 'path', 'path': 'paths', 'pair': 'pairs', 'zdict': 'dicts', 'str': 'strs'}
+OBJ_ATTRS = {'atom': {'isotope': ('a_iso', 'optZ'), 'atomic_number': ('a_num', 'Z'), 'charge': ('a_chg', 'Z'), 'is_radical': ('a_rad', 'bool')},
+             'catom': {'isotope': ('ca_iso', 'optZ'), 'atomic_number': ('ca_num', 'Z'), 'charge': ('ca_chg', 'Z'), 'p_charge': ('ca_pchg', 'Z'),
+                       'is_radical': ('ca_rad', 'bool'), 'p_is_radical': ('ca_prad', 'bool')}}
 COQTY = {'Z': 'Z', 'path': 'list Z', 'paths': 'list (list Z)', 'frs': 'list (list Z * list (list Z))', 'zdict': 'list (Z * Z)',
-         'dicts': 'list (list (Z * Z))'}
+         'dicts': 'list (list (Z * Z))', 'sdict': 'list (Z * list string)', 'strdict': 'list (string * list Z)'}
 
 
 def cname(n):
@@ -106,7 +120,10 @@ class Fn:
         if isinstance(e, ast.List):
             if len(e.elts) != 1:
                 self.err(e, 'list literal')
-            return f'[{self.ex(e.elts[0], "Z")}]', 'path'
+            t, ty = self.expr(e.elts[0])
+            if ty not in ('Z', 'str'):
+                self.err(e, 'list literal')
+            return f'[{t}]', LISTOF[ty]
         if isinstance(e, ast.BinOp):
             l, lt = self.expr(e.left)
             r, rt = self.expr(e.right)
@@ -163,6 +180,13 @@ class Fn:
             if e.attr in self.attrs:
                 return self.attrs[e.attr]
             self.err(e, 'attribute of self')
+        if isinstance(e, ast.Attribute) and isinstance(e.value, ast.Name) and self.env.get(e.value.id) in OBJ_ATTRS:
+            table = OBJ_ATTRS[self.env[e.value.id]]
+            if e.attr in table:
+                return f'({table[e.attr][0]} {cname(e.value.id)})', table[e.attr][1]
+            self.err(e, 'attribute of an atom')
+        if isinstance(e, ast.BoolOp) and isinstance(e.op, ast.Or) and len(e.values) == 2 and self.is_int(e.values[1], 0):
+            return f'(match {self.ex(e.values[0], "optZ")} with Some v => v | None => 0 end)', 'Z'
         self.err(e, 'expression')
 
     def subscript(self, e):
@@ -247,8 +271,10 @@ class Fn:
                 heads.append((pat, it))
             if elt is None:                                       # dict comprehension {k: v ...}
                 k = self.ex(e.key, 'Z')
-                v = self.ex(e.value, 'Z')
-                body, bty, rty = f'({k}, {v})', 'pair', 'zdict'
+                v, vty = self.expr(e.value)
+                if vty not in ('Z', 'strs'):
+                    self.err(e, f'dict comprehension value of type {vty}')
+                body, bty, rty = f'({k}, {v})', 'pair', ('zdict' if vty == 'Z' else 'sdict')
             else:
                 body, bty = self.expr(elt, hint)
                 if bty not in LISTOF:
@@ -262,6 +288,13 @@ class Fn:
 
     def selfcall(self, e):
         m = e.func.attr
+        if m in ('_format_atom', '_format_bond') and self.cfg.get('spell'):
+            # self._format_atom(n, None, stereo=False) / self._format_bond(n, m, None, stereo=False, aromatic=False): parameters fa / fb
+            k = 1 if m == '_format_atom' else 2
+            kw = [(x.arg, ast.unparse(x.value)) for x in e.keywords]
+            if len(e.args) != k + 1 or ast.unparse(e.args[k]) != 'None' or kw != [('stereo', 'False')] + ([('aromatic', 'False')] if k == 2 else []):
+                self.err(e, f'{m} is expected to be called with (..., None, stereo=False{", aromatic=False" if k == 2 else ""})')
+            return '(' + ('fa' if k == 1 else 'fb') + ' ' + ' '.join(self.ex(x, 'Z') for x in e.args[:k]) + ')', 'str'
         if m not in self.calls:
             self.err(e, 'call of an unknown method of self')
         par, ty, raises, args = self.calls[m]
@@ -277,10 +310,13 @@ class Fn:
         f = e.func
         if isinstance(f, ast.Attribute) and isinstance(f.value, ast.Name) and f.value.id == 'self':
             return self.selfcall(e)
+        if isinstance(f, ast.Attribute) and f.attr == 'join' and isinstance(f.value, ast.Constant) and f.value.value == '' and len(e.args) == 1 \
+                and not e.keywords:
+            return f'(String.concat EmptyString {self.ex(e.args[0], "strs")})', 'str'
         if isinstance(f, ast.Attribute) and f.attr in ('items', 'values') and not e.args and not e.keywords:
             a, ty = self.expr(f.value)
-            if f.attr == 'items' and ty in ('zdict', 'frs', 'nbrd'):
-                return a, {'zdict': 'zdict_items', 'frs': 'frs_items', 'nbrd': 'nbr_items'}[ty]
+            if f.attr == 'items' and ty in ('zdict', 'frs', 'nbrd', 'catomsd', 'sdict'):
+                return a, {'zdict': 'zdict_items', 'frs': 'frs_items', 'nbrd': 'nbr_items', 'catomsd': 'catom_items', 'sdict': 'sdict_items'}[ty]
             if f.attr == 'values' and ty == 'zdict':
                 return f'(map snd {a})', 'path'
             self.err(e, f'.{f.attr}() of {ty}')
@@ -298,6 +334,16 @@ class Fn:
             return f'(zrange 0 {self.ex(a[0], "Z")})', 'path'
         if n == 'range' and len(a) == 2:
             return f'(zrange {self.ex(a[0], "Z")} {self.ex(a[1], "Z")})', 'path'
+        if n == 'hash' and len(a) == 1 and self.cfg.get('concrete_hash'):
+            if not isinstance(a[0], ast.Tuple) or not a[0].elts:
+                self.err(e, 'hash of something else than a tuple display')
+            lanes = []
+            for x in a[0].elts:
+                t, ty = self.expr(x)
+                if ty not in ('Z', 'bool'):
+                    self.err(x, f'hashed item of type {ty}')
+                lanes.append(f'hash_{"int" if ty == "Z" else "bool"} {t}')
+            return f'(tuple_hash_lanes [{"; ".join(lanes)}])', 'Z'
         if n == 'hash' and len(a) == 1:
             return f'(h {self.ex(a[0], "path")})', 'Z'
         if n == 'int' and len(a) == 1:
@@ -319,13 +365,31 @@ class Fn:
             return t, ty
         if n == 'dict' and len(a) == 1:
             t, ty = self.expr(a[0])
-            if ty != 'frs':
+            if ty not in ('frs', 'strdict'):
                 self.err(e, 'dict()')
             return t, ty
         if n == 'set' and not a and hint in ('paths', 'path'):
             return '[]', hint
-        if n == 'defaultdict' and len(a) == 1 and isinstance(a[0], ast.Name) and a[0].id == 'list':
-            return '[]', 'frs'
+        if n == 'defaultdict' and len(a) == 1 and isinstance(a[0], ast.Name) and a[0].id in ('list', 'set'):
+            ty = self.cfg.get('ddict', 'frs')
+            if (a[0].id == 'set') != (ty == 'sdict'):
+                self.err(e, 'defaultdict')
+            return '[]', ty
+        if n == 'sorted' and len(a) == 1 and isinstance(a[0], ast.Name) and self.env.get(a[0].id) == 'strs':
+            return cname(a[0].id), 'strs'                        # sorted(<set of str>): the set itself (values are compared as sets)
+        if n == 'enumerate' and len(a) == 2:
+            t, ty = self.expr(a[0])
+            if ty != 'dicts':
+                self.err(e, 'enumerate')
+            return f'(combine (zrange_from {self.ex(a[1], "Z")} (List.length {t})) {t})', 'enum_dicts'
+        if n == 'format' and len(a) == 2:
+            c = a[0]
+            if (isinstance(a[1], ast.Constant) and a[1].value == 'A' and isinstance(c, ast.Call) and isinstance(c.func, ast.Attribute)
+                    and isinstance(c.func.value, ast.Name) and c.func.value.id == 'self' and c.func.attr == 'augmented_substructure'
+                    and len(c.args) == 1 and isinstance(c.args[0], ast.Tuple) and len(c.args[0].elts) == 1
+                    and [k.arg for k in c.keywords] == ['deep'] and self.cfg.get('cs')):
+                return f'(cs g (ball g {self.ex(c.args[0].elts[0], "Z")} (Z.to_nat {self.ex(c.keywords[0].value, "Z")})))', 'str'
+            self.err(e, 'format')
         if n == 'sorted' and len(a) == 1 and isinstance(a[0], ast.GeneratorExp):
             t, ty = self.expr(a[0], 'pair')
             if ty != 'pairs':
@@ -422,6 +486,16 @@ class Fn:
             if self.mode != 'pyres':
                 self.err(s, 'assert in a function that cannot raise')
             return f'{pad}if {self.ex(s.test, "bool")} then\n{self.block(rest, ind, final)}\n{pad}else Err OtherError'
+        if isinstance(s, ast.Assign) and len(s.targets) == 1 and isinstance(s.targets[0], ast.Subscript):
+            # fingerprints[list(bits)] = 1
+            t = s.targets[0]
+            if not (isinstance(t.value, ast.Name) and self.env.get(t.value.id) == 'vec' and self.is_int(s.value, 1) and isinstance(t.slice, ast.Call)
+                    and isinstance(t.slice.func, ast.Name) and t.slice.func.id == 'list' and len(t.slice.args) == 1 and not t.slice.keywords
+                    and self.mode == 'pyres'):
+                self.err(s, 'subscript assignment')
+            v = cname(t.value.id)
+            return (f'{pad}match np_put_ones {v} {self.ex(t.slice.args[0], "path")} with\n{pad}| Err e => Err e\n{pad}| Ok {v} =>\n'
+                    + self.block(rest, ind + 1, final) + f'\n{pad}end')
         if isinstance(s, ast.Assign):
             if len(s.targets) != 1 or not isinstance(s.targets[0], ast.Name):
                 self.err(s, 'assignment target')
@@ -442,6 +516,12 @@ class Fn:
                 a = self.ex(v.args[0].args[0], 'Z')
                 self.env[n] = 'Z'
                 return f'{pad}if {a} <=? 0 then Err ValueError else\n{pad}let {cname(n)} := Z.log2 {a} in\n' + self.block(rest, ind, final)
+            # fingerprints = zeros(length, dtype=uint8)
+            if isinstance(v, ast.Call) and isinstance(v.func, ast.Name) and v.func.id == 'zeros':
+                if len(v.args) != 1 or [(k.arg, ast.unparse(k.value)) for k in v.keywords] != [('dtype', 'uint8')]:
+                    self.err(s, 'zeros(...)')
+                self.env[n] = 'vec'
+                return f'{pad}let {cname(n)} := np_zeros {self.ex(v.args[0], "Z")} in\n' + self.block(rest, ind, final)
             hint = None
             if isinstance(v, ast.Call) and isinstance(v.func, ast.Name) and v.func.id == 'set' and not v.args:
                 hint = self.cfg.get('sets', {}).get(n)
@@ -465,11 +545,19 @@ class Fn:
             f, arg = s.value.func, s.value.args[0]
             if isinstance(f.value, ast.Name):
                 n, ty = self.name(f.value)
-                if f.attr in ('add', 'append') and ty in ('path', 'paths', 'dicts'):
-                    want = {'path': 'Z', 'paths': 'path', 'dicts': 'zdict'}[ty]
+                if f.attr in ('add', 'append') and ty in ('path', 'paths', 'dicts', 'strs'):
+                    want = {'path': 'Z', 'paths': 'path', 'dicts': 'zdict', 'strs': 'str'}[ty]
                     return f'{pad}let {n} := {n} ++ [{self.ex(arg, want)}] in\n' + self.block(rest, ind, final)
                 if f.attr == 'extend' and ty == 'paths':
                     return f'{pad}let {n} := {n} ++ {self.ex(arg, "paths")} in\n' + self.block(rest, ind, final)
+            if isinstance(f.value, ast.Subscript) and isinstance(f.value.value, ast.Name) and f.attr == 'add' \
+                    and self.env.get(f.value.value.id) == 'sdict':                # d[k].add(s), d = defaultdict(set)
+                n = cname(f.value.value.id)
+                return f'{pad}let {n} := sdict_add {n} {self.ex(f.value.slice, "Z")} {self.ex(arg, "str")} in\n' + self.block(rest, ind, final)
+            if isinstance(f.value, ast.Subscript) and isinstance(f.value.value, ast.Name) and f.attr == 'append' \
+                    and self.env.get(f.value.value.id) == 'strdict':              # d[s].append(k), d = defaultdict(list) with str keys
+                n = cname(f.value.value.id)
+                return f'{pad}let {n} := strdict_append {n} {self.ex(f.value.slice, "str")} {self.ex(arg, "Z")} in\n' + self.block(rest, ind, final)
             if isinstance(f.value, ast.Subscript) and isinstance(f.value.value, ast.Name) and f.attr == 'append' \
                     and self.env.get(f.value.value.id) == 'frs':                  # out[k].append(v), out = defaultdict(list)
                 n = cname(f.value.value.id)
@@ -533,66 +621,130 @@ class Fn:
         return body
 
 
-def find_class_func(tree, cls, name, path):
+def find_class_func(tree, cls, name, path, decorators=()):
     for c in tree.body:
         if isinstance(c, ast.ClassDef) and c.name == cls:
             fs = [f for f in c.body if isinstance(f, ast.FunctionDef) and f.name == name]
             if len(fs) == 1:
-                if fs[0].decorator_list:
-                    raise TranslatorError(f'{path}: {cls}.{name} is decorated')
+                if [ast.unparse(d) for d in fs[0].decorator_list] != list(decorators):
+                    raise TranslatorError(f'{path}: {cls}.{name}: unexpected decorators')
                 return fs[0]
     raise TranslatorError(f'{path}: {cls}.{name} not found (or defined twice)')
 
 
+FP = 'chython/algorithms/fingerprints/'
 RADII = [('min_radius', 'Z'), ('max_radius', 'Z')]
 RSIG, RARGS = '(min_radius max_radius : Z)', 'min_radius max_radius'
 SELF_G = {'_atoms': ('g', 'atomsd'), '_bonds': ('g', 'bondsd')}
 
 FUNCS = [
-    dict(file='linear.py', cls='LinearFingerprint', name='_chains', gname='g_chains', mode='option', ret='paths',
+    dict(file=FP + 'linear.py', cls='LinearFingerprint', name='_chains', gname='g_chains', mode='option', ret='paths',
          params=RADII, defaults=['1', '4'], sig=RSIG, argnames=RARGS, attrs=SELF_G, sets={'arr': 'paths'},
          head='(fuel : nat) (g : mol) (min_radius max_radius : Z) : option (list (list Z))',
          doc='_chains: the value is the sequence of arr.add(...) arguments (a Python set: compared as a set)'),
-    dict(file='linear.py', cls='LinearFingerprint', name='_fragments', gname='g_fragments', mode='plain', ret='frs',
+    dict(file=FP + 'linear.py', cls='LinearFingerprint', name='_fragments', gname='g_fragments', mode='plain', ret='frs',
          params=RADII, defaults=['1', '4'], attrs=dict(SELF_G, _atom_identifiers=('self_atom_identifiers', 'zdict')),
          calls={'_chains': ('self_chains', 'paths', False, ['min_radius', 'max_radius'])},
          head='(g : mol) (self_atom_identifiers : list (Z * Z)) (self_chains : list (list Z)) (min_radius max_radius : Z) : list (list Z * list (list Z))',
          doc='_fragments over the identifier dictionary and the iteration sequence of self._chains(min_radius, max_radius)'),
-    dict(file='linear.py', cls='LinearFingerprint', name='linear_hash_set', gname='g_linear_hash_set', mode='plain', ret='path',
+    dict(file=FP + 'linear.py', cls='LinearFingerprint', name='linear_hash_set', gname='g_linear_hash_set', mode='plain', ret='path',
          params=RADII + [('number_bit_pairs', 'Z')], defaults=['1', '4', '4'],
          calls={'_fragments': ('self_fragments', 'frs', False, ['min_radius', 'max_radius'])},
          head='(h : list Z -> Z) (self_fragments : list (list Z * list (list Z))) (min_radius max_radius number_bit_pairs : Z) : list Z',
          doc='linear_hash_set over the dictionary returned by self._fragments(min_radius, max_radius)'),
-    dict(file='linear.py', cls='LinearFingerprint', name='linear_bit_set', gname='g_linear_bit_set', mode='pyres', ret='path',
+    dict(file=FP + 'linear.py', cls='LinearFingerprint', name='linear_bit_set', gname='g_linear_bit_set', mode='pyres', ret='path',
          params=RADII + [('length', 'Z'), ('number_active_bits', 'Z'), ('number_bit_pairs', 'Z')], defaults=['1', '4', '1024', '2', '4'],
          calls={'linear_hash_set': ('self_linear_hash_set', 'path', False, ['min_radius', 'max_radius', 'number_bit_pairs'])},
          sets={'active_bits': 'path'},
          head='(self_linear_hash_set : list Z) (min_radius max_radius length_v number_active_bits number_bit_pairs : Z) : pyres (list Z)',
          doc='linear_bit_set over the iteration sequence of self.linear_hash_set(min_radius, max_radius, number_bit_pairs)'),
-    dict(file='morgan.py', cls='MorganFingerprint', name='_morgan_hash_dict', gname='g_morgan_hash_dict', mode='pyres', ret='dicts',
+    dict(file=FP + 'morgan.py', cls='MorganFingerprint', name='_morgan_hash_dict', gname='g_morgan_hash_dict', mode='pyres', ret='dicts',
          params=RADII, defaults=['1', '4'], attrs=dict(SELF_G, _atom_identifiers=('self_atom_identifiers', 'zdict')),
          head='(h : list Z -> Z) (g : mol) (self_atom_identifiers : list (Z * Z)) (min_radius max_radius : Z) : pyres (list (list (Z * Z)))',
          doc='_morgan_hash_dict over the identifier dictionary'),
-    dict(file='morgan.py', cls='MorganFingerprint', name='morgan_hash_set', gname='g_morgan_hash_set', mode='pyres', ret='path',
+    dict(file=FP + 'morgan.py', cls='MorganFingerprint', name='morgan_hash_set', gname='g_morgan_hash_set', mode='pyres', ret='path',
          params=RADII, defaults=['1', '4'],
          calls={'_morgan_hash_dict': ('self_morgan_hash_dict', 'dicts', True, ['min_radius', 'max_radius'])},
          head='(self_morgan_hash_dict : pyres (list (list (Z * Z)))) (min_radius max_radius : Z) : pyres (list Z)',
          doc='morgan_hash_set over the result of self._morgan_hash_dict(min_radius, max_radius)'),
-    dict(file='morgan.py', cls='MorganFingerprint', name='morgan_bit_set', gname='g_morgan_bit_set', mode='pyres', ret='path',
+    dict(file=FP + 'morgan.py', cls='MorganFingerprint', name='morgan_bit_set', gname='g_morgan_bit_set', mode='pyres', ret='path',
          params=RADII + [('length', 'Z'), ('number_active_bits', 'Z')], defaults=['1', '4', '1024', '2'],
          calls={'morgan_hash_set': ('self_morgan_hash_set', 'path', True, ['min_radius', 'max_radius'])},
          sets={'active_bits': 'path'},
          head='(self_morgan_hash_set : pyres (list Z)) (min_radius max_radius length_v number_active_bits : Z) : pyres (list Z)',
          doc='morgan_bit_set over the result of self.morgan_hash_set(min_radius, max_radius), which is evaluated after log2(length)'),
+    dict(file=FP + 'linear.py', cls='LinearFingerprint', name='linear_fingerprint', gname='g_linear_fingerprint', mode='pyres', ret='vec',
+         params=RADII + [('length', 'Z'), ('number_active_bits', 'Z'), ('number_bit_pairs', 'Z')], defaults=['1', '4', '1024', '2', '4'],
+         calls={'linear_bit_set': ('self_linear_bit_set', 'path', True,
+                                   ['min_radius', 'max_radius', 'length', 'number_active_bits', 'number_bit_pairs'])},
+         head='(self_linear_bit_set : pyres (list Z)) (min_radius max_radius length_v number_active_bits number_bit_pairs : Z) : pyres (list Z)',
+         doc='linear_fingerprint over the result of self.linear_bit_set(...)'),
+    dict(file=FP + 'morgan.py', cls='MorganFingerprint', name='morgan_fingerprint', gname='g_morgan_fingerprint', mode='pyres', ret='vec',
+         params=RADII + [('length', 'Z'), ('number_active_bits', 'Z')], defaults=['1', '4', '1024', '2'],
+         calls={'morgan_bit_set': ('self_morgan_bit_set', 'path', True, ['min_radius', 'max_radius', 'length', 'number_active_bits'])},
+         head='(self_morgan_bit_set : pyres (list Z)) (min_radius max_radius length_v number_active_bits : Z) : pyres (list Z)',
+         doc='morgan_fingerprint over the result of self.morgan_bit_set(...)'),
+    dict(file=FP + 'morgan.py', cls='MorganFingerprint', name='morgan_hash_smiles', gname='g_morgan_hash_smiles', mode='pyres', ret='sdict',
+         params=RADII, defaults=['1', '4'], ddict='sdict', cs=True,
+         calls={'_morgan_hash_dict': ('self_morgan_hash_dict', 'dicts', True, ['min_radius', 'max_radius'])},
+         head='(cs : mol -> list Z -> string) (g : mol) (self_morgan_hash_dict : pyres (list (list (Z * Z)))) (min_radius max_radius : Z) '
+              ': pyres (list (Z * list string))',
+         doc='morgan_hash_smiles over the result of self._morgan_hash_dict(...); format(self.augmented_substructure((a,), deep=r), "A") = '
+             'cs g (ball g a r), the canonical string of the substructure on the atoms within r bonds (parameter cs, atom set Model.MorganSmiles.ball)'),
+    dict(file=FP + 'morgan.py', cls='MorganFingerprint', name='morgan_smiles_hash', gname='g_morgan_smiles_hash', mode='pyres', ret='strdict',
+         params=RADII, defaults=['1', '4'], ddict='strdict',
+         calls={'morgan_hash_smiles': ('self_morgan_hash_smiles', 'sdict', True, ['min_radius', 'max_radius'])},
+         head='(self_morgan_hash_smiles : pyres (list (Z * list string))) (min_radius max_radius : Z) : pyres (list (string * list Z))',
+         doc='morgan_smiles_hash over the result of self.morgan_hash_smiles(...)'),
+    dict(file=FP + 'linear.py', cls='LinearFingerprint', name='linear_hash_smiles', gname='g_linear_hash_smiles', mode='plain', ret='sdict',
+         params=RADII + [('number_bit_pairs', 'Z')], defaults=['1', '4', '4'], ddict='sdict', spell=True,
+         calls={'_fragments': ('self_fragments', 'frs', False, ['min_radius', 'max_radius'])},
+         head='(fa : Z -> string) (fb : Z -> Z -> string) (h : list Z -> Z) (self_fragments : list (list Z * list (list Z))) '
+              '(min_radius max_radius number_bit_pairs : Z) : list (Z * list string)',
+         doc='linear_hash_smiles over the dictionary returned by self._fragments(...); fa n = self._format_atom(n, None, stereo=False), '
+             'fb n m = self._format_bond(n, m, None, stereo=False, aromatic=False) (parameters; modelled by Model.LinearSpell)'),
+    dict(file=FP + 'linear.py', cls='LinearFingerprint', name='linear_smiles_hash', gname='g_linear_smiles_hash', mode='plain', ret='strdict',
+         params=RADII + [('number_bit_pairs', 'Z')], defaults=['1', '4', '4'], ddict='strdict',
+         calls={'linear_hash_smiles': ('self_linear_hash_smiles', 'sdict', False, ['min_radius', 'max_radius', 'number_bit_pairs'])},
+         head='(self_linear_hash_smiles : list (Z * list string)) (min_radius max_radius number_bit_pairs : Z) : list (string * list Z)',
+         doc='linear_smiles_hash over the result of self.linear_hash_smiles(...)'),
+    dict(file=FP + '__init__.py', cls='Fingerprints', name='_atom_identifiers', gname='g_atom_identifiers', mode='plain', ret='zdict',
+         params=[], defaults=[], decorators=('property',), concrete_hash=True,
+         calls={'atoms': ('(m_atoms g)', 'atom_items', False, [])},
+         head='(g : mol) : list (Z * Z)', doc='Fingerprints._atom_identifiers; self.atoms() = the items of self._atoms'),
+    dict(file=FP + '__init__.py', cls='FingerprintsCGR', name='_atom_identifiers', gname='g_cgr_atom_identifiers', mode='plain', ret='zdict',
+         params=[], defaults=[], decorators=('property',), concrete_hash=True, attrs={'_atoms': ('(c_atoms c)', 'catomsd')},
+         head='(c : cgr) : list (Z * Z)', doc='FingerprintsCGR._atom_identifiers'),
+    dict(file='chython/containers/bonds.py', cls='DynamicBond', name='__hash__', gname='g_dynbond_int', mode='plain', ret='Z',
+         params=[], defaults=[], concrete_hash=True, attrs={'order': ('(cb_ord b)', 'optZ'), 'p_order': ('(cb_pord b)', 'optZ')},
+         head='(b : cbond) : Z', doc='int(DynamicBond) = DynamicBond.__hash__ (DynamicBond.__int__ is `return hash(self)`)'),
+]
+
+# one-line bodies the translation rules rely on: (file, class, function, decorators, body after the docstring)
+FIXED_BODIES = [
+    ('chython/containers/bonds.py', 'DynamicBond', '__int__', (), 'return hash(self)'),
+    ('chython/containers/bonds.py', 'Bond', '__int__', (), 'return self.order'),                       # int(b) = b_ord b
+    ('chython/containers/bonds.py', 'Bond', 'order', ('property',), 'return self._order'),
+    ('chython/containers/bonds.py', 'DynamicBond', 'order', ('property',), 'return self._order'),
+    ('chython/containers/bonds.py', 'DynamicBond', 'p_order', ('property',), 'return self._p_order'),
+    ('chython/containers/graph.py', 'Graph', 'atoms', (), 'return iter(self._atoms.items())'),       # self.atoms() = items of _atoms
 ]
 
 PRELUDE = '''(* GENERATED by tools/gen_fpbodies.py from chython/algorithms/fingerprints/linear.py and morgan.py. Do not edit.
    Statement-by-statement translation of the function bodies; vocabulary (zmem, nbr_ids, nbrs, ids, len_z, tuple_gtb, zrange, ident,
    bond_order, dict_append, sort_pairs) from Model.PyBase / Graph / Fingerprint. *)
-From Coq Require Import ZArith List Bool.
-From Model Require Import PyBase Graph Fingerprint.
+From Coq Require Import ZArith List Bool String.
+From Model Require Import PyBase Graph PyHash Fingerprint FingerprintCGR LinearSmiles MorganSmiles.
 Import ListNotations.
 Open Scope Z_scope.
+
+(* numpy: zeros(n, dtype=uint8) and the assignment v[list(bits)] = 1 (an index outside [-len, len) is an IndexError raised before anything
+   is stored; a negative index counts from the end) *)
+Definition np_zeros (n : Z) : list Z := map (fun _ => 0) (zrange 0 n).
+Definition np_put_ones (v : list Z) (idx : list Z) : pyres (list Z) :=
+  let n := len_z v in
+  if existsb (fun b => (b <? - n) || (n <=? b)) idx then Err IndexError
+  else Ok (map (fun ix => if existsb (fun b => b mod n =? fst ix) idx then 1 else snd ix) (combine (zrange 0 n) v)).
 '''
 
 
@@ -612,27 +764,64 @@ def check_imports(tree, path, wanted):
             raise TranslatorError(f'{path}:{n.lineno}: a library name is redefined')
 
 
+def body_text(fn):
+    body = fn.body
+    if body and isinstance(body[0], ast.Expr) and isinstance(body[0].value, ast.Constant) and isinstance(body[0].value.value, str):
+        body = body[1:]
+    return '\n'.join(ast.unparse(b) for b in body)
+
+
+IMPORTS = {FP + 'linear.py': {'defaultdict': 'collections', 'deque': 'collections', 'log2': 'math', 'zeros': 'numpy', 'uint8': 'numpy'},
+           FP + 'morgan.py': {'defaultdict': 'collections', 'log2': 'math', 'zeros': 'numpy', 'uint8': 'numpy'}}
+
+
 def main(repo='/repo', dest=None):
     dest = dest or gen_path('FingerprintBodies.v')
-    fp = os.path.join(repo, 'chython/algorithms/fingerprints')
     trees = {}
-    for f, wanted in (('linear.py', {'defaultdict': 'collections', 'deque': 'collections', 'log2': 'math'}),
-                      ('morgan.py', {'defaultdict': 'collections', 'log2': 'math'})):
-        p = os.path.join(fp, f)
-        try:
-            trees[f] = ast.parse(open(p).read())
-        except (OSError, SyntaxError) as e:
-            raise TranslatorError(f'{p}: {e}')
-        check_imports(trees[f], p, wanted)
+
+    def tree(rel):
+        if rel not in trees:
+            p = os.path.join(repo, rel)
+            try:
+                trees[rel] = ast.parse(open(p).read())
+            except (OSError, SyntaxError) as e:
+                raise TranslatorError(f'{p}: {e}')
+            check_imports(trees[rel], p, IMPORTS.get(rel, {}))
+        return trees[rel]
+    for rel, cls, name, decorators, expected in FIXED_BODIES:
+        fn = find_class_func(tree(rel), cls, name, rel, decorators)
+        if body_text(fn) != expected or [a.arg for a in fn.args.args] != ['self']:
+            raise TranslatorError(f'{rel}:{fn.lineno}: {cls}.{name} is expected to be `{expected}`')
+    # the shared methods must not be overridden by the two classes that inherit them
+    ini = tree(FP + '__init__.py')
+    for c in ini.body:
+        if isinstance(c, ast.ClassDef) and c.name in ('Fingerprints', 'FingerprintsCGR'):
+            if [ast.unparse(b) for b in c.bases] != ['LinearFingerprint', 'MorganFingerprint']:
+                raise TranslatorError(f'{FP}__init__.py:{c.lineno}: bases of {c.name} changed')
+            extra = [f.name for f in c.body if isinstance(f, (ast.FunctionDef, ast.AsyncFunctionDef)) and f.name != '_atom_identifiers']
+            if extra:
+                raise TranslatorError(f'{FP}__init__.py:{c.lineno}: {c.name} defines {extra}')
+    # every method of the two mixin classes is translated; nothing else may be defined there
+    for rel, cls in ((FP + 'linear.py', 'LinearFingerprint'), (FP + 'morgan.py', 'MorganFingerprint')):
+        c = [c for c in tree(rel).body if isinstance(c, ast.ClassDef) and c.name == cls]
+        if len(c) != 1 or c[0].bases or c[0].decorator_list or c[0].keywords:
+            raise TranslatorError(f'{rel}: class {cls} not found or has bases / decorators')
+        defined = sorted(f.name for f in c[0].body if isinstance(f, (ast.FunctionDef, ast.AsyncFunctionDef)))
+        expected = sorted([cfg['name'] for cfg in FUNCS if cfg['cls'] == cls] + ['_atom_identifiers'])
+        if defined != expected:
+            raise TranslatorError(f'{rel}: methods of {cls} changed: {defined}')
+        stub = find_class_func(tree(rel), cls, '_atom_identifiers', rel, ('property',))
+        if body_text(stub) != 'raise NotImplementedError':
+            raise TranslatorError(f'{rel}:{stub.lineno}: {cls}._atom_identifiers is expected to be abstract')
     out = [PRELUDE]
     for cfg in FUNCS:
-        p = os.path.join(fp, cfg['file'])
-        fn = find_class_func(trees[cfg['file']], cfg['cls'], cfg['name'], p)
+        p = os.path.join(repo, cfg['file'])
+        fn = find_class_func(tree(cfg['file']), cfg['cls'], cfg['name'], p, cfg.get('decorators', ()))
         tr = Fn(p, fn, cfg)
         body = tr.run()
         out.extend(tr.hoisted)
         last = fn.body[-1]
-        out.append(f'(* {cfg["cls"]}.{cfg["name"]}, lines {fn.lineno}-{getattr(last, "end_lineno", last.lineno)}: {cfg["doc"]} *)\n'
+        out.append(f'(* {cfg["cls"]}.{cfg["name"]}, {cfg["file"]} lines {fn.lineno}-{getattr(last, "end_lineno", last.lineno)}: {cfg["doc"]} *)\n'
                    f'Definition {cfg["gname"]} {cfg["head"]} :=\n{body}.\n')
     return write_if_changed(dest, '\n'.join(out))
 
